@@ -128,6 +128,18 @@ def r2_tolerates_vanished_files(repo=None):
             how.append("os.access probe (probing pass before the reading pass)")
             continue
         if not probes:
+            # no probe in _read itself: a verdict needs positive evidence.  If neither _read nor a helper it calls probes a path
+            # or handles IOError / OSError at all, a vanished file does make the read fail (violation); if a helper does
+            # (e.g. the list of names comes filtered from a helper), the idiom is one this rule does not follow: not decided
+            helpers = [h for h, c_, b_ in pyutil.local_helpers(m, m.fn(q), depth=2)]
+            tolerant = [h.name for h in helpers if any(
+                (isinstance(x, ast.Call) and pyfront.call_name(x) in ("os.access", "os.path.exists", "os.path.isfile"))
+                or (isinstance(x, ast.ExceptHandler) and x.type is not None and any(
+                    n_ in ast.unparse(x.type) for n_ in ("IOError", "OSError", "EnvironmentError", "Exception")))
+                for x in ast.walk(h))]
+            if tolerant:
+                raise AnalysisError("%s: no os.access probe in the method itself; its helper(s) %s probe the path or handle I/O errors - "
+                                    "whether every opened name went through them is not analysed" % (q, ", ".join(sorted(tolerant))))
             ok = False
             continue
         p = probes[0]
